@@ -350,11 +350,22 @@ class Inliner:
         self.inlined = {}       # helper qualname -> number of call sites inlined
         self.helpers = {}
         self.static = set()
+        self.classmethods = set()
         for q, (fn, owner) in self.funcs.items():
             if "#" in q or f"{rel}:{q}" in self.inv:
                 continue
             if owner is not None and f"{rel}:class {owner.name}" not in self.inv:
-                continue            # method of a new class: receiver type unknown at the call site
+                # method of a new class: receiver type unknown at the call site - except a classmethod called on the class by name
+                if len(fn.decorator_list) == 1 and isinstance(fn.decorator_list[0], ast.Name) and fn.decorator_list[0].id == "classmethod" \
+                        and fn.args.args and not any(isinstance(x, ast.Name) and x.id == fn.args.args[0].arg and isinstance(x.ctx, ast.Store) for x in ast.walk(fn)):
+                    saved_ = fn.decorator_list
+                    fn.decorator_list = []
+                    ok_ = _basic_ok(fn)
+                    fn.decorator_list = saved_
+                    if ok_:
+                        self.helpers[q] = (fn, owner)
+                        self.classmethods.add(q)
+                continue
             if owner is not None and len(fn.decorator_list) == 1 and isinstance(fn.decorator_list[0], ast.Name) and fn.decorator_list[0].id == "staticmethod":
                 # `self.helper(..)` on a static method: a plain function that happens to live in the class
                 saved_ = fn.decorator_list
@@ -452,8 +463,10 @@ class Inliner:
             return f.id
         if isinstance(f, ast.Attribute) and isinstance(f.value, ast.Name) and f.value.id == "self" and owner is not None:
             q = f"{owner.name}.{f.attr}"
-            if q in self.helpers and f.attr not in self.other_class_methods.get(owner.name, set()):
+            if q in self.helpers and q not in self.classmethods and f.attr not in self.other_class_methods.get(owner.name, set()):
                 return q
+        if isinstance(f, ast.Attribute) and isinstance(f.value, ast.Name) and f"{f.value.id}.{f.attr}" in self.classmethods:
+            return f"{f.value.id}.{f.attr}"          # `NewClass.make(..)`: the class is named, the classmethod is that one
         return self._foreign_target(call)
 
     def _import_pos(self):
@@ -531,6 +544,11 @@ class Inliner:
         args = list(call.args)
         if q in self.static:
             owner = None
+        cls_sub = None
+        if q in self.classmethods:
+            cls_sub = (pos[0], owner.name)         # the first parameter is the class itself
+            pos = pos[1:]
+            owner = None
         if owner is not None:
             if not pos or pos[0] != "self":
                 raise NotInlinable("method without self")
@@ -585,6 +603,9 @@ class Inliner:
             if "self" in stored:
                 raise NotInlinable("method rebinds self")
             ren["self"] = self_name
+        if cls_sub is not None:
+            sub[cls_sub[0]] = ast.Name(id=cls_sub[1], ctx=ast.Load())
+            ren.pop(cls_sub[0], None)
         star_sub = {}
         if extra_pos is not None:
             va = fn.args.vararg.arg
@@ -1219,6 +1240,57 @@ def record_classes(tree, rel, inv):
             rec["methods"], rec["node"] = methods, n
             out[n.name] = rec
     return out
+
+
+def scalarize_single_records(fn, records):
+    """`r = R(a, b)` (R a plain record class, the arguments names / constants, r bound once) whose every use is a field read `r.f`
+    -> the reads become the arguments (the names are not rebound between the construction and the last read); -> number of records replaced"""
+    n = 0
+    stores = {}
+    for x in ast.walk(fn):
+        if isinstance(x, ast.Name) and isinstance(x.ctx, (ast.Store, ast.Del)):
+            stores[x.id] = stores.get(x.id, 0) + 1
+    for owner_ in ast.walk(fn):
+        for f_ in ("body", "orelse", "finalbody"):
+            blk = getattr(owner_, f_, None)
+            if not (isinstance(blk, list) and blk and isinstance(blk[0], ast.stmt)):
+                continue
+            i = 0
+            while i < len(blk):
+                st = blk[i]
+                if isinstance(st, ast.Assign) and len(st.targets) == 1 and isinstance(st.targets[0], ast.Name) and isinstance(st.value, ast.Call) \
+                        and isinstance(st.value.func, ast.Name) and st.value.func.id in records and not records[st.value.func.id].get("anonymous") \
+                        and stores.get(st.targets[0].id, 0) == 1 and all(isinstance(a, (ast.Name, ast.Constant)) for a in st.value.args) \
+                        and all(k.arg and isinstance(k.value, (ast.Name, ast.Constant)) for k in st.value.keywords):
+                    R, r = records[st.value.func.id], st.targets[0].id
+                    bind = dict(zip(R["params"], st.value.args))
+                    bind.update({k.arg: k.value for k in st.value.keywords})
+                    bind = {**R["defaults"], **bind}
+                    fields = {f: e for f, e in R["exprs"].items()}
+                    if set(R["params"]) - set(bind) or not all(isinstance(e, ast.Name) and e.id in bind for e in fields.values()):
+                        i += 1
+                        continue
+                    uses = [x for x in ast.walk(fn) if isinstance(x, ast.Name) and x.id == r and isinstance(x.ctx, ast.Load)]
+                    reads = [x for x in ast.walk(fn) if isinstance(x, ast.Attribute) and isinstance(x.value, ast.Name) and x.value.id == r
+                             and isinstance(x.ctx, ast.Load) and x.attr in fields]
+                    rest = blk[i + 1:]
+                    in_rest = sum(1 for s2 in rest for x in ast.walk(s2) if isinstance(x, ast.Name) and x.id == r)
+                    argn = {a.id for a in bind.values() if isinstance(a, ast.Name)}
+                    clobber = any(isinstance(x, ast.Name) and x.id in argn and isinstance(x.ctx, (ast.Store, ast.Del)) for s2 in rest for x in ast.walk(s2))
+                    if uses and len(uses) == len(reads) == in_rest and not clobber:
+                        class Sub(ast.NodeTransformer):
+                            def visit_Attribute(self, x):
+                                self.generic_visit(x)
+                                if isinstance(x.value, ast.Name) and x.value.id == r and isinstance(x.ctx, ast.Load) and x.attr in fields:
+                                    return copy.deepcopy(bind[fields[x.attr].id])
+                                return x
+                        m = ast.Module(body=rest, type_ignores=[])
+                        Sub().visit(m)
+                        blk[i:] = m.body
+                        n += 1
+                        continue
+                i += 1
+    return n
 
 
 class Scalarizer:
@@ -2124,6 +2196,7 @@ def build_inlined_tree(src_root, dst_root):
             sc = Scalarizer(inl, recs)
             for q, (fn, owner) in inl.funcs.items():
                 if owner is None or owner.name not in recs:
+                    sc.count += scalarize_single_records(fn, recs)
                     sc.run_fn(fn, owner)
             if sc.count:
                 changed.add(rel)
@@ -2179,7 +2252,9 @@ def build_inlined_tree(src_root, dst_root):
                 continue
             holder = t
             if "." in q:
-                holder = next(n for n in t.body if isinstance(n, ast.ClassDef) and n.name == q.split(".")[0])
+                holder = next((n for n in t.body if isinstance(n, ast.ClassDef) and n.name == q.split(".")[0]), None)
+                if holder is None:
+                    continue          # the class went as a whole (a record class that was scalarised away)
             node = next((n for n in holder.body if isinstance(n, ast.FunctionDef) and n.name == name), None)
             if node is None:
                 continue
